@@ -552,7 +552,9 @@ class Screen(BaseScreen, RealTerminal):
         def is_blank_row(row: list[tuple[object, Literal["0", "U"] | None], bytes]) -> bool:
             if len(row) > 1:
                 return False
-            return not row[0][2].strip()
+            a, _cs, text = row[0]
+            # spaces with a visible attribute (e.g. a background colour) are not blank
+            return not text.strip() and attr_to_escape(a) == attr_to_escape(None)
 
         def attr_to_escape(a: AttrSpec | str | None) -> str:
             if a in self._pal_escape:
